@@ -7,7 +7,22 @@
     InlineJumps to the end of the BODY copy / of the whole expansion);
   * loops over a literal or constant sequence are unrolled (`for name in FIELDS: ...`, `for dst, src in ((a.x, b.x), ..): ...`);
   * `getattr(o, name)` / `setattr(o, name, v)` whose name is a string constant at that point (literal, module constant, the single
-    reaching definition of a local / inlined parameter) become `o.<name>` / `o.<name> = v`.
+    reaching definition of a local / inlined parameter) become `o.<name>` / `o.<name> = v`;
+  * a starred literal sequence is its elements: `Rec(*(a, b))` -> `Rec(a, b)`, `[*(a, b), c]` -> `[a, b, c]`;
+  * a comprehension over a literal sequence is written out where all of its elements are consumed at once
+    (`x, y = (E(v) for v in (a, b))` -> `x, y = (E(a), E(b))`, list / set comprehensions, arguments of tuple / list / set / update ..);
+  * a generator helper consumed by a call inside an INLINED helper (the flattener does this only for the anchor's own body):
+    `X.update(g(..))` / `X.extend(g(..))` -> loop adding one element at a time, then expanded like any loop over a generator helper;
+    in other expressions `g(..)` -> generator expression when g is a plain nest of `for` / `if` around one `yield`;
+  * a private helper that is one `return <expression>` is that expression wherever it is called (comprehension filters included);
+  * `attrgetter(*FIELDS)(v)` / `itemgetter(*KEYS)(v)` with a starred module-level table (bound to a module-level or local name or
+    written in place) -> `(v.a, v.b, ..)`; `Rec._make(seq)` of a NamedTuple record -> `Rec(*seq)`;
+  * loops over `zip(<written-out sequences>)` / `enumerate(<written-out sequence>)` are unrolled like loops over literal tuples;
+  * `for .. else` without `break` -> the else branch follows the loop (with `break` over a generator helper: expanded with the else
+    branch inside the block the `break` leaves); a loop that only searches (`if C: break` + else branch, or a boolean flag) -> `any(..)`.
+
+`written_out(flat)` applies only the two purely positional rewrites (starred literals, comprehensions over literal sequences); C17.global
+hands the functions to the effect analysis in that form.
 
 The library is never imported or executed: everything is an AST -> AST rewrite of a private copy.
 """
@@ -163,9 +178,47 @@ def _resolve_generator(repo: Repo, f: FuncInfo, call: ast.Call) -> Optional[Tupl
     return callee, recv_self
 
 
+def _for_else(fn: ast.AST) -> bool:
+    """`for .. else: E` / `while .. else: E` whose body has no `break` of its own: E simply follows the loop"""
+    changed = [False]
+
+    def rewrite(stmts: List[ast.stmt]) -> List[ast.stmt]:
+        out: List[ast.stmt] = []
+        for s in stmts:
+            if isinstance(s, (ast.For, ast.While)) and s.orelse and not any(isinstance(j, ast.Break) for j in _own_jumps(s.body)):
+                tail, s.orelse = list(s.orelse), []
+                out.append(s)
+                out.extend(tail)
+                changed[0] = True
+            else:
+                out.append(s)
+        return out
+
+    _map_blocks(fn, rewrite)
+    return changed[0]
+
+
 def _expand_one(repo: Repo, f: FuncInfo, loop: ast.For, stack: Tuple[str, ...]) -> Optional[List[ast.stmt]]:
-    if not isinstance(loop, ast.For) or loop.orelse or not isinstance(loop.iter, ast.Call):
+    if not isinstance(loop, ast.For) or not isinstance(loop.iter, ast.Call):
         return None
+    if loop.orelse:
+        # for .. else with a `break`: the else branch runs when the generator is exhausted, a `break` skips it
+        inner = copy.copy(loop)
+        inner.orelse = []
+        k = next(_counter)
+        label = f"e{k}:else"
+        if any(isinstance(s_, (ast.Yield, ast.YieldFrom)) for s_ in _walk_scope(loop)):
+            return None
+        tmp = ast.Module(body=copy.deepcopy(inner.body), type_ignores=[])
+        repl = {id(c_): label for c_ in _own_jumps(tmp.body) if isinstance(c_, ast.Break)}
+        tmp = _JumpRewriter(repl).visit(tmp)
+        inner.body = tmp.body
+        got = _expand_one(repo, f, inner, stack)
+        if got is None:
+            return None
+        blk = _block(label, got + copy.deepcopy(loop.orelse), loop)
+        ast.fix_missing_locations(blk)
+        return [blk]
     res = _resolve_generator(repo, f, loop.iter)
     if res is None:
         return None
@@ -298,6 +351,19 @@ def _sequence_elements(repo: Repo, f: FuncInfo, it: ast.AST, single_defs: Dict[s
         return [copy.deepcopy(e) for e in it.elts]
     if isinstance(it, ast.Call) and isinstance(it.func, ast.Name) and it.func.id in ("list", "tuple", "iter") and len(it.args) == 1 and not it.keywords:
         return _sequence_elements(repo, f, it.args[0], single_defs, stored, depth + 1)
+    if isinstance(it, ast.Call) and isinstance(it.func, ast.Name) and it.func.id == "zip" and it.args and it.func.id not in stored \
+            and not any(isinstance(a, ast.Starred) for a in it.args) and all(k.arg == "strict" for k in it.keywords):
+        # zip of sequences that are written out: the i-th elements go together
+        cols = [_sequence_elements(repo, f, a, single_defs, stored, depth + 1) for a in it.args]
+        if any(c is None for c in cols) or len({len(c) for c in cols}) != 1:
+            return None
+        return [ast.Tuple(elts=list(row), ctx=ast.Load()) for row in zip(*cols)]
+    if isinstance(it, ast.Call) and isinstance(it.func, ast.Name) and it.func.id == "enumerate" and len(it.args) == 1 and not it.keywords \
+            and it.func.id not in stored:
+        col = _sequence_elements(repo, f, it.args[0], single_defs, stored, depth + 1)
+        if col is None:
+            return None
+        return [ast.Tuple(elts=[ast.Constant(value=i), e], ctx=ast.Load()) for i, e in enumerate(col)]
     if isinstance(it, ast.Name):
         if it.id in single_defs:
             return _sequence_elements(repo, f, single_defs[it.id], single_defs, stored, depth + 1)
@@ -354,6 +420,575 @@ def _unroll(repo: Repo, f: FuncInfo, fn: ast.AST) -> bool:
         return out
 
     _map_blocks(fn, rewrite)
+    return changed[0]
+
+
+# ------------------------------------------------------------------------------------------------ starred literals
+def _spread_stars(fn: ast.AST) -> bool:
+    """`f(*(a, b), c)` -> `f(a, b, c)`;  `[*(a, b), c]` -> `[a, b, c]`  (a starred literal sequence is its elements)"""
+    changed = [False]
+
+    def spread(elts: List[ast.expr]) -> List[ast.expr]:
+        out: List[ast.expr] = []
+        for e in elts:
+            if isinstance(e, ast.Starred) and isinstance(e.value, (ast.Tuple, ast.List)):
+                changed[0] = True
+                out.extend(spread(list(e.value.elts)))
+            else:
+                out.append(e)
+        return out
+
+    for n in _walk_scope(fn):
+        if isinstance(n, ast.Call) and any(isinstance(a, ast.Starred) for a in n.args):
+            n.args = spread(list(n.args))
+        elif isinstance(n, (ast.Tuple, ast.List, ast.Set)) and isinstance(getattr(n, "ctx", ast.Load()), ast.Load) \
+                and any(isinstance(a, ast.Starred) for a in n.elts):
+            n.elts = spread(list(n.elts))
+    return changed[0]
+
+
+# ------------------------------------------------------------------------------------------------ records and search loops
+def _record_make(repo: Repo, fn: ast.AST) -> bool:
+    """`Rec._make(seq)` of a NamedTuple record class is `Rec(*seq)`"""
+    changed = [False]
+    stored = _stored_names(fn)
+    for n in _walk_scope(fn):
+        if isinstance(n, ast.Call) and isinstance(n.func, ast.Attribute) and n.func.attr == "_make" and isinstance(n.func.value, ast.Name) \
+                and len(n.args) == 1 and not n.keywords and not isinstance(n.args[0], ast.Starred) and n.func.value.id not in stored:
+            ci = repo.classes.get(n.func.value.id)
+            if ci is not None and getattr(ci, "record_kind", None) == "namedtuple":
+                n.func = ast.copy_location(ast.Name(id=n.func.value.id, ctx=ast.Load()), n.func)
+                n.args = [ast.copy_location(ast.Starred(value=n.args[0], ctx=ast.Load()), n.args[0])]
+                changed[0] = True
+    return changed[0]
+
+
+def _loads_after(stmts: List[ast.stmt], names: Set[str]) -> bool:
+    return any(isinstance(x, ast.Name) and isinstance(x.ctx, ast.Load) and x.id in names for s in stmts for x in ast.walk(s))
+
+
+def _search_loops(fn: ast.AST) -> bool:
+    """a loop that only looks for an element is the `any(..)` it computes:
+         for v in IT:                                   found = False
+             if C: break              and               for v in IT:
+         else:                                              if C: found = True; break
+             E                                          -> found = any(C for v in IT)
+         -> if not any(C for v in IT): E
+    (C without side effects worth keeping apart: no calls of helpers remain in a flattened test other than methods / builtins)"""
+    changed = [False]
+
+    def probe(loop: ast.AST):
+        """(test, extra statements of the hit branch) when the loop body is `if C: [flag = True]; break`"""
+        if not isinstance(loop, ast.For) or len(loop.body) != 1 or not isinstance(loop.body[0], ast.If) or loop.body[0].orelse:
+            return None
+        branch = loop.body[0].body
+        if not branch or not isinstance(branch[-1], ast.Break):
+            return None
+        if any(isinstance(x, (ast.Yield, ast.YieldFrom, ast.Await, ast.NamedExpr)) for x in ast.walk(loop.body[0].test)):
+            return None
+        return loop.body[0].test, branch[:-1]
+
+    def any_of(loop: ast.For) -> ast.expr:
+        gen = ast.comprehension(target=copy.deepcopy(loop.target), iter=copy.deepcopy(loop.iter), ifs=[], is_async=0)
+        e = ast.Call(func=ast.Name(id="any", ctx=ast.Load()), args=[ast.GeneratorExp(elt=copy.deepcopy(loop.body[0].test), generators=[gen])], keywords=[])
+        return ast.copy_location(e, loop)
+
+    def rewrite(stmts: List[ast.stmt]) -> List[ast.stmt]:
+        out: List[ast.stmt] = []
+        i = 0
+        while i < len(stmts):
+            s = stmts[i]
+            got = probe(s)
+            tnames = C.target_names(s.target) if got is not None else set()
+            if got is not None and not got[1] and s.orelse and not _loads_after(stmts[i + 1:], tnames) and not _loads_after(s.orelse, tnames):
+                new = ast.copy_location(ast.If(test=ast.UnaryOp(op=ast.Not(), operand=any_of(s)), body=list(s.orelse), orelse=[]), s)
+                out.append(ast.fix_missing_locations(new))
+                changed[0] = True
+            elif got is not None and len(got[1]) == 1 and not s.orelse and out and not _loads_after(stmts[i + 1:], tnames) \
+                    and isinstance(got[1][0], ast.Assign) and len(got[1][0].targets) == 1 and isinstance(got[1][0].targets[0], ast.Name) \
+                    and isinstance(got[1][0].value, ast.Constant) and isinstance(got[1][0].value.value, bool) \
+                    and isinstance(out[-1], ast.Assign) and len(out[-1].targets) == 1 and isinstance(out[-1].targets[0], ast.Name) \
+                    and out[-1].targets[0].id == got[1][0].targets[0].id and isinstance(out[-1].value, ast.Constant) \
+                    and isinstance(out[-1].value.value, bool) and out[-1].value.value is not got[1][0].value.value:
+                val: ast.expr = any_of(s)
+                if got[1][0].value.value is False:      # flag starts True and is cleared by a hit
+                    val = ast.UnaryOp(op=ast.Not(), operand=val)
+                new = ast.copy_location(ast.Assign(targets=[ast.Name(id=out[-1].targets[0].id, ctx=ast.Store())], value=val, lineno=s.lineno), s)
+                out[-1] = ast.fix_missing_locations(new)
+                changed[0] = True
+            else:
+                out.append(s)
+            i += 1
+        return out
+
+    _map_blocks(fn, rewrite)
+    return changed[0]
+
+
+# ------------------------------------------------------------------------------------------------ comprehensions over literal sequences
+_SIMPLE = (ast.Name, ast.Constant)
+
+
+def _is_simple(e: ast.AST) -> bool:
+    """an expression that may be written out several times without changing what is computed"""
+    while isinstance(e, ast.Attribute):
+        e = e.value
+    return isinstance(e, _SIMPLE)
+
+
+class _Subst(ast.NodeTransformer):
+    def __init__(self, mapping: Dict[str, ast.AST]):
+        self.m = mapping
+
+    def visit_Name(self, n):
+        if isinstance(n.ctx, ast.Load) and n.id in self.m:
+            return ast.copy_location(copy.deepcopy(self.m[n.id]), n)
+        return n
+
+
+def _bind_target(target: ast.AST, value: ast.AST, out: Dict[str, ast.AST]) -> bool:
+    if isinstance(target, ast.Name):
+        out[target.id] = value
+        return True
+    if isinstance(target, (ast.Tuple, ast.List)) and isinstance(value, (ast.Tuple, ast.List)) and len(target.elts) == len(value.elts) \
+            and not any(isinstance(x, ast.Starred) for x in list(target.elts) + list(value.elts)):
+        return all(_bind_target(t, v, out) for t, v in zip(target.elts, value.elts))
+    return False
+
+
+def _written_out(comp: ast.AST) -> Optional[List[ast.expr]]:
+    """the elements of `E(v) for v in (c1, c2, ..)` (one generator over a literal sequence, no filter): [E(c1), E(c2), ..]"""
+    if not isinstance(comp, (ast.ListComp, ast.SetComp, ast.GeneratorExp)) or len(comp.generators) != 1:
+        return None
+    gen = comp.generators[0]
+    if gen.ifs or gen.is_async or not isinstance(gen.iter, (ast.Tuple, ast.List)) or len(gen.iter.elts) > MAX_UNROLL:
+        return None
+    if any(isinstance(e, ast.Starred) for e in gen.iter.elts):
+        return None
+    if any(isinstance(x, (ast.NamedExpr, ast.Yield, ast.YieldFrom, ast.Await, ast.Lambda, ast.ListComp, ast.SetComp, ast.DictComp, ast.GeneratorExp))
+           for x in ast.walk(comp.elt)):
+        return None
+    out: List[ast.expr] = []
+    for e in gen.iter.elts:
+        m: Dict[str, ast.AST] = {}
+        if not _bind_target(gen.target, e, m):
+            return None
+        for name, val in m.items():
+            uses = sum(1 for x in ast.walk(comp.elt) if isinstance(x, ast.Name) and x.id == name)
+            if uses > 1 and not _is_simple(val):
+                return None
+        out.append(_Subst(m).visit(copy.deepcopy(comp.elt)))
+    return out
+
+
+_EAGER = ("tuple", "list", "set", "frozenset", "sorted")
+
+
+def _comps_over_literals(fn: ast.AST) -> bool:
+    """a comprehension over a literal sequence is written out where all of its elements are consumed at once: a list / set comprehension
+    anywhere, a generator expression that is unpacked (`a, b = (E(v) for v in (x, y))`), starred, or the only argument of
+    tuple / list / set / frozenset / sorted / .update / .extend"""
+    changed = [False]
+
+    def display(comp, kind=None):
+        elts = _written_out(comp)
+        if elts is None:
+            return None
+        changed[0] = True
+        if kind is None:
+            kind = ast.Set if isinstance(comp, ast.SetComp) else ast.List if isinstance(comp, ast.ListComp) else ast.Tuple
+        if kind is ast.Set:
+            return ast.copy_location(ast.Set(elts=elts), comp) if elts else None
+        return ast.copy_location(kind(elts=elts, ctx=ast.Load()), comp)
+
+    class T(ast.NodeTransformer):
+        def visit_FunctionDef(self, n):
+            return n if n is not fn else self.generic_visit(n)
+
+        visit_Lambda = visit_AsyncFunctionDef = visit_ClassDef = lambda self, n: n
+
+        def visit_ListComp(self, n):
+            self.generic_visit(n)
+            return display(n) or n
+
+        visit_SetComp = visit_ListComp
+
+        def visit_Assign(self, n):
+            self.generic_visit(n)
+            if isinstance(n.value, ast.GeneratorExp) and all(isinstance(t, (ast.Tuple, ast.List)) for t in n.targets):
+                n.value = display(n.value) or n.value
+            return n
+
+        def visit_Starred(self, n):
+            self.generic_visit(n)
+            if isinstance(n.value, ast.GeneratorExp) and isinstance(n.ctx, ast.Load):
+                n.value = display(n.value) or n.value
+            return n
+
+        def visit_Call(self, n):
+            self.generic_visit(n)
+            name = n.func.id if isinstance(n.func, ast.Name) else n.func.attr if isinstance(n.func, ast.Attribute) else None
+            if len(n.args) == 1 and not n.keywords and isinstance(n.args[0], ast.GeneratorExp) and \
+                    ((isinstance(n.func, ast.Name) and name in _EAGER) or (isinstance(n.func, ast.Attribute) and name in ("update", "extend"))):
+                n.args[0] = display(n.args[0]) or n.args[0]
+            return n
+
+    T().visit(fn)
+    return changed[0]
+
+
+# ------------------------------------------------------------------------------------------------ generators consumed by a call
+def _simple_generator(repo: Repo, f: FuncInfo, call: ast.Call, stack: Tuple[str, ...]) -> Optional[ast.GeneratorExp]:
+    """`g(args)` as a generator expression when the generator function is a nest of `for` / `if` statements around one `yield`"""
+    res = _resolve_generator(repo, f, call)
+    if res is None:
+        return None
+    callee, _recv_self = res
+    if callee.qn in stack:
+        return None
+    for cand in (flatten(repo, callee), callee):
+        body = list(cand.node.body)
+        if body and isinstance(body[0], ast.Expr) and isinstance(body[0].value, ast.Constant) and isinstance(body[0].value.value, str):
+            body = body[1:]
+        gens: List[ast.comprehension] = []
+        elt = None
+        while len(body) == 1:
+            s = body[0]
+            if isinstance(s, ast.For) and not s.orelse:
+                gens.append(ast.comprehension(target=copy.deepcopy(s.target), iter=copy.deepcopy(s.iter), ifs=[], is_async=0))
+                body = s.body
+            elif isinstance(s, ast.If) and not s.orelse and gens and not isinstance(s, InlineBlock):
+                gens[-1].ifs.append(copy.deepcopy(s.test))
+                body = s.body
+            elif isinstance(s, ast.Expr) and isinstance(s.value, ast.Yield) and s.value.value is not None and gens:
+                elt = copy.deepcopy(s.value.value)
+                break
+            else:
+                break
+        if elt is None:
+            continue
+        comp = ast.GeneratorExp(elt=elt, generators=gens)
+        if any(isinstance(x, (ast.Yield, ast.YieldFrom, ast.NamedExpr, ast.Await)) for x in ast.walk(comp)):
+            continue
+        params = list(callee.params)
+        stored = {x.id for x in ast.walk(comp) if isinstance(x, ast.Name) and isinstance(x.ctx, ast.Store)}
+        if stored & set(params):
+            continue
+        n = next(_counter)
+        comp = _Renamer({x: f"{x}__g{n}" for x in stored}).visit(comp)
+        m: Dict[str, ast.AST] = {}
+        if callee.is_method:
+            m[params[0]] = ast.Name(id=f.self_name or "self", ctx=ast.Load())
+            params = params[1:]
+        bound: Dict[str, ast.AST] = dict(zip(params, call.args))
+        for k in call.keywords:
+            bound[k.arg] = k.value
+        ok = True
+        for p_ in params:
+            v = bound.get(p_, callee.defaults.get(p_))
+            if v is None:
+                ok = False
+                break
+            uses = sum(1 for x in ast.walk(comp) if isinstance(x, ast.Name) and x.id == p_)
+            in_first = sum(1 for x in ast.walk(comp.generators[0].iter) if isinstance(x, ast.Name) and x.id == p_)
+            # an argument is evaluated once, before the first element is produced: it may be written into the expression when that is
+            # where it stays (the first iterable), or when evaluating it again gives the same object
+            if not (_is_simple(v) or (uses == 1 and in_first == 1)):
+                ok = False
+                break
+            m[p_] = v
+        if not ok:
+            continue
+        comp = _Subst(m).visit(comp)
+        return ast.fix_missing_locations(ast.copy_location(comp, call))
+    return None
+
+
+def _consumed_generators(repo: Repo, f: FuncInfo, fn: ast.AST, stack: Tuple[str, ...]) -> bool:
+    """`X.update(g(..))` / `X.extend(g(..))` for a generator helper g become a loop over g(..) that adds one element at a time (which the
+    generator expansion then opens); a generator helper called in any other expression becomes a generator expression when it is a
+    plain nest of loops and filters"""
+    changed = [False]
+
+    def rewrite(stmts: List[ast.stmt]) -> List[ast.stmt]:
+        out: List[ast.stmt] = []
+        for s in stmts:
+            c = s.value if isinstance(s, ast.Expr) else None
+            if isinstance(c, ast.Call) and isinstance(c.func, ast.Attribute) and c.func.attr in ("update", "extend") and len(c.args) == 1 and not c.keywords \
+                    and _is_simple(c.func.value) and isinstance(c.args[0], ast.Call) and _resolve_generator(repo, f, c.args[0]) is not None \
+                    and _resolve_generator(repo, f, c.args[0])[0].qn not in stack:
+                n = next(_counter)
+                var = f"item__u{n}"
+                meth = "add" if c.func.attr == "update" else "append"
+                add = ast.Expr(value=ast.Call(func=ast.Attribute(value=copy.deepcopy(c.func.value), attr=meth, ctx=ast.Load()),
+                                              args=[ast.Name(id=var, ctx=ast.Load())], keywords=[]))
+                loop = ast.For(target=ast.Name(id=var, ctx=ast.Store()), iter=c.args[0], body=[add], orelse=[], lineno=s.lineno)
+                out.append(ast.fix_missing_locations(ast.copy_location(loop, s)))
+                changed[0] = True
+            else:
+                out.append(s)
+        return out
+
+    _map_blocks(fn, rewrite)
+
+    class T(ast.NodeTransformer):
+        def visit_FunctionDef(self, n):
+            return n if n is not fn else self.generic_visit(n)
+
+        visit_Lambda = visit_AsyncFunctionDef = visit_ClassDef = lambda self, n: n
+
+        def visit_For(self, n):
+            # the iterable of a loop is opened by the generator expansion
+            it = n.iter
+            self.generic_visit(n)
+            n.iter = it
+            return n
+
+        def visit_Call(self, n):
+            self.generic_visit(n)
+            try:
+                g_ = _simple_generator(repo, f, n, stack)
+            except (KeyError, AttributeError, TypeError, ValueError, IndexError):
+                g_ = None
+            if g_ is not None:
+                changed[0] = True
+                return g_
+            return n
+
+    T().visit(fn)
+    return changed[0]
+
+
+# ------------------------------------------------------------------------------------------------ helpers that are one expression
+_NESTED = (ast.Lambda, ast.ListComp, ast.SetComp, ast.DictComp, ast.GeneratorExp)
+
+
+def _expression_helper(repo: Repo, f: FuncInfo, mods: List[str], call: ast.Call, stored: Set[str]) -> Optional[Tuple[FuncInfo, Dict[str, ast.AST]]]:
+    """(callee, {parameter: argument}) for a call of a helper of the repository whose body is `return <expression>`; `self._h(..)` or `h(..)`"""
+    fn_ = call.func
+    callee = None
+    m: Dict[str, ast.AST] = {}
+    if isinstance(fn_, ast.Attribute) and isinstance(fn_.value, ast.Name) and f.cls and f.self_name and fn_.value.id == f.self_name:
+        callee = repo.find_method(f.cls, fn_.attr)
+    elif isinstance(fn_, ast.Name) and fn_.id not in stored and fn_.id not in f.params:
+        for mod in mods:
+            r = repo.lookup(mod, fn_.id)
+            if r and r[0] == "func":
+                callee = repo.funcs.get(f"{repo.mods[r[2]].short}::{fn_.id}")
+                break
+    if callee is None or callee.qn == f.qn or callee.node.decorator_list and not callee.static:
+        return None
+    if not ((callee.name.startswith("_") and not callee.name.startswith("__")) or callee.mod is f.mod):
+        return None
+    a = callee.node.args
+    if a.vararg or a.kwarg or any(isinstance(x, ast.Starred) for x in call.args) or any(k.arg is None for k in call.keywords):
+        return None
+    body = list(callee.node.body)
+    if body and isinstance(body[0], ast.Expr) and isinstance(body[0].value, ast.Constant) and isinstance(body[0].value.value, str):
+        body = body[1:]
+    if len(body) != 1 or not isinstance(body[0], ast.Return) or body[0].value is None:
+        return None
+    expr = body[0].value
+    if any(isinstance(x, (ast.Yield, ast.YieldFrom, ast.Await, ast.NamedExpr)) for x in ast.walk(expr)):
+        return None
+    params = list(callee.params)
+    if callee.is_method:
+        if not isinstance(fn_, ast.Attribute):
+            return None
+        m[params[0]] = fn_.value
+        params = params[1:]
+    if len(call.args) > len(params):
+        return None
+    bound: Dict[str, ast.AST] = dict(zip(params, call.args))
+    for k in call.keywords:
+        if k.arg not in params or k.arg in bound:
+            return None
+        bound[k.arg] = k.value
+    inner = {x.id for x in ast.walk(expr) if isinstance(x, ast.Name) and isinstance(x.ctx, ast.Store)}
+    for p_ in params:
+        v = bound.get(p_, callee.defaults.get(p_))
+        if v is None:
+            return None
+        uses = sum(1 for x in ast.walk(expr) if isinstance(x, ast.Name) and x.id == p_)
+        nested = any(isinstance(c, _NESTED) and any(isinstance(x, ast.Name) and x.id == p_ for x in ast.walk(c)) for c in ast.walk(expr))
+        if not _is_simple(v) and (uses > 1 or nested):
+            return None
+        if inner & {x.id for x in ast.walk(v) if isinstance(x, ast.Name)}:
+            return None     # a variable of a comprehension in the helper would capture a name of the argument
+        m[p_] = v
+    if inner & set(m):
+        return None
+    return callee, m
+
+
+def _inline_expression_helpers(repo: Repo, f: FuncInfo, fn: ast.AST, mods: List[str]) -> bool:
+    """a call of a private helper that is one `return <expression>` is that expression, wherever the call stands (the flattener leaves such
+    calls alone inside comprehension filters and generator expressions of inlined helpers)"""
+    changed = [False]
+    stored = _stored_names(fn)
+
+    class T(ast.NodeTransformer):
+        depth = 0
+
+        def visit_FunctionDef(self, n):
+            return n if n is not fn else self.generic_visit(n)
+
+        visit_Lambda = visit_AsyncFunctionDef = visit_ClassDef = lambda self, n: n
+
+        def visit_Call(self, n):
+            self.generic_visit(n)
+            if self.depth > 4:
+                return n
+            got = _expression_helper(repo, f, mods, n, stored)
+            if got is None:
+                return n
+            callee, m = got
+            expr = copy.deepcopy([s_ for s_ in callee.node.body if isinstance(s_, ast.Return)][0].value)
+            expr = _Subst(m).visit(expr)
+            if callee.mod.name not in mods:
+                mods.append(callee.mod.name)
+            for x in ast.walk(expr):
+                ast.copy_location(x, n)
+            changed[0] = True
+            self.depth += 1
+            try:
+                expr = self.visit(expr)       # helpers called by the helper
+            finally:
+                self.depth -= 1
+            return expr
+
+    T().visit(fn)
+    return changed[0]
+
+
+# ------------------------------------------------------------------------------------------------ attrgetter / itemgetter over constant tables
+def _home_modules(repo: Repo, f: FuncInfo) -> List[str]:
+    """the module of the analysed function and those of the helpers that were inlined into it (their bodies refer to their own globals)"""
+    out = [f.mod.name]
+    for qn in getattr(f, "inlined", []) or []:
+        fi = repo.funcs.get(qn)
+        if fi is not None and fi.mod.name not in out:
+            out.append(fi.mod.name)
+    return out
+
+
+def _single_call_defs(fn: ast.AST) -> Dict[str, ast.AST]:
+    """local names assigned exactly once, to a call (`read = attrgetter(*FIELDS)`)"""
+    count: Dict[str, int] = {}
+    val: Dict[str, ast.AST] = {}
+    for n in _walk_scope(fn):
+        if isinstance(n, ast.Name) and isinstance(n.ctx, (ast.Store, ast.Del)):
+            count[n.id] = count.get(n.id, 0) + 1
+        if isinstance(n, ast.Assign) and len(n.targets) == 1 and isinstance(n.targets[0], ast.Name) and isinstance(n.value, ast.Call):
+            val[n.targets[0].id] = n.value
+        if isinstance(n, ast.AnnAssign) and isinstance(n.target, ast.Name) and isinstance(n.value, ast.Call):
+            val[n.target.id] = n.value
+    return {k: v for k, v in val.items() if count.get(k) == 1}
+
+
+def _getter(repo: Repo, mods: List[str], e: ast.AST, locals_: Dict[str, ast.AST], stored: Set[str], params: List[str], depth: int = 0):
+    """('attrgetter' | 'itemgetter', [constant, ..]) when the expression denotes such a function value whose arguments are constants, also
+    given as a starred module-level table (`attrgetter(*FIELDS)`); the value may be bound to a module-level or once-assigned local name"""
+    if depth > 3:
+        return None
+    if isinstance(e, ast.Name):
+        if e.id in locals_:
+            return _getter(repo, mods, locals_[e.id], {}, stored, params, depth + 1)
+        if e.id in stored or e.id in params:
+            return None
+        for m in mods:
+            r = repo.lookup(m, e.id)
+            if r and r[0] == "const":
+                return _getter(repo, [r[2]], r[1], {}, set(), [], depth + 1)
+        return None
+    if not (isinstance(e, ast.Call) and not e.keywords and e.args):
+        return None
+    fn_ = e.func
+    fac = None
+    if isinstance(fn_, ast.Attribute) and isinstance(fn_.value, ast.Name) and fn_.attr in ("attrgetter", "itemgetter"):
+        for m in mods:
+            r = repo.lookup(m, fn_.value.id)
+            if r and r[0] in ("module", "external") and (r[1] == "operator" or r[1] == ("operator", None) or r[2] == "operator"):
+                fac = fn_.attr
+    elif isinstance(fn_, ast.Name) and fn_.id in ("attrgetter", "itemgetter") and fn_.id not in stored and fn_.id not in params:
+        for m in mods:
+            r = repo.lookup(m, fn_.id)
+            if r and r[0] == "external" and r[1] == ("operator", fn_.id):
+                fac = fn_.id
+    if fac is None:
+        return None
+    keys: List[object] = []
+    for a in e.args:
+        if isinstance(a, ast.Starred):
+            got = None
+            for m in mods:
+                ok, v = repo.fold(a.value, m)
+                if ok and isinstance(v, list):
+                    got = v
+                    break
+            if got is None:
+                return None
+            keys.extend(got)
+        else:
+            got1 = None
+            for m in mods:
+                ok, v = repo.fold(a, m)
+                if ok:
+                    got1 = (v,)
+                    break
+            if got1 is None:
+                return None
+            keys.append(got1[0])
+    if not keys or len(keys) > MAX_UNROLL:
+        return None
+    if fac == "attrgetter" and not all(isinstance(k, str) and all(part.isidentifier() for part in k.split(".")) for k in keys):
+        return None
+    if fac == "itemgetter" and not all(isinstance(k, (str, int)) and not isinstance(k, bool) for k in keys):
+        return None
+    return fac, keys
+
+
+def _apply_getters(repo: Repo, f: FuncInfo, fn: ast.AST, mods: Optional[List[str]] = None) -> bool:
+    """`attrgetter(*FIELDS)(v)` -> `(v.a, v.b, ..)`, `itemgetter(*KEYS)(v)` -> `(v[k1], ..)` (one key: the bare access); the flattener
+    applies these function values only when their arguments are literals"""
+    changed = [False]
+    mods = mods if mods is not None else _home_modules(repo, f)
+    locals_ = _single_call_defs(fn)
+    stored = _stored_names(fn)
+    params = list(f.params)
+
+    class T(ast.NodeTransformer):
+        def visit_FunctionDef(self, n):
+            return n if n is not fn else self.generic_visit(n)
+
+        visit_Lambda = visit_AsyncFunctionDef = visit_ClassDef = lambda self, n: n
+
+        def visit_Call(self, n):
+            self.generic_visit(n)
+            if len(n.args) != 1 or n.keywords or isinstance(n.args[0], ast.Starred) or not isinstance(n.func, (ast.Name, ast.Call)):
+                return n
+            got = _getter(repo, mods, n.func, locals_, stored, params)
+            if got is None:
+                return n
+            fac, keys = got
+            x = n.args[0]
+            if len(keys) > 1 and not _is_simple(x):
+                return n
+
+            def one(k):
+                if fac == "itemgetter":
+                    return ast.Subscript(value=copy.deepcopy(x), slice=ast.Constant(value=k), ctx=ast.Load())
+                out = copy.deepcopy(x)
+                for part in k.split("."):
+                    out = ast.Attribute(value=out, attr=part, ctx=ast.Load())
+                return out
+
+            elts = [one(k) for k in keys]
+            changed[0] = True
+            new = elts[0] if len(elts) == 1 else ast.Tuple(elts=elts, ctx=ast.Load())
+            return ast.fix_missing_locations(ast.copy_location(new, n))
+
+    T().visit(fn)
     return changed[0]
 
 
@@ -443,6 +1078,78 @@ def _attr_calls(repo: Repo, f: FuncInfo, fn: ast.FunctionDef) -> bool:
 
 
 # ------------------------------------------------------------------------------------------------ entry
+def _derived(flat: FuncInfo, fn: ast.FunctionDef) -> FuncInfo:
+    ast.fix_missing_locations(fn)
+    out = FuncInfo(flat.mod, flat.cls, fn, static=flat.static)
+    out.qn = flat.qn
+    out.flat_of = getattr(flat, "flat_of", flat)
+    out.inlined = list(getattr(flat, "inlined", []))
+    out.inlined_bodies = getattr(flat, "inlined_bodies", [])
+    return out
+
+
+def _nested_duplicate_labels(fn: ast.AST) -> bool:
+    for b in ast.walk(fn):
+        if isinstance(b, InlineBlock):
+            for x in ast.walk(b):
+                if x is not b and isinstance(x, InlineBlock) and getattr(x, "label", None) == getattr(b, "label", None):
+                    return True
+    return False
+
+
+def _relabel_nested_blocks(fn: ast.AST) -> bool:
+    """an InlineBlock nested in a block of the same label (a body holding a block was copied into itself by an unrolling step): the inner
+    block and the jumps that belong to it (innermost scope) get a label of their own -- the CFG builder needs unique open labels"""
+    changed = [False]
+
+    def rec(node: ast.AST, open_: Dict[str, str]) -> None:
+        for ch in ast.iter_child_nodes(node):
+            if isinstance(ch, SCOPES):
+                continue
+            if isinstance(ch, InlineBlock):
+                lab = getattr(ch, "label", None)
+                if lab in open_:
+                    new = f"{lab}#r{next(_counter)}"
+                    ch.label = new
+                    changed[0] = True
+                    rec(ch, {**open_, lab: new})
+                else:
+                    rec(ch, {**open_, lab: lab})
+            elif isinstance(ch, InlineJump):
+                lab = getattr(ch, "label", None)
+                if lab in open_ and open_[lab] != lab:
+                    ch.label = open_[lab]
+            else:
+                rec(ch, open_)
+
+    rec(fn, {})
+    return changed[0]
+
+
+_written: Dict[int, Tuple[FuncInfo, FuncInfo]] = {}
+
+
+def written_out(flat: FuncInfo) -> FuncInfo:
+    """a flattened function with starred literals spread and comprehensions over literal sequences written out (nothing else)"""
+    hit = _written.get(id(flat.node))
+    if hit is not None and hit[0] is flat:
+        return hit[1]
+    out = flat
+    dup = _nested_duplicate_labels(flat.node)
+    if dup or any(isinstance(n, (ast.Starred, ast.ListComp, ast.SetComp, ast.GeneratorExp)) for n in _walk_scope(flat.node)):
+        fn = copy.deepcopy(flat.node)
+        try:
+            changed = _relabel_nested_blocks(fn) if dup else False
+            changed = _spread_stars(fn) or changed
+            changed = _comps_over_literals(fn) or changed
+        except (RecursionError, KeyError, IndexError, AttributeError, TypeError, ValueError):
+            changed = False
+        if changed:
+            out = _derived(flat, fn)
+    _written[id(flat.node)] = (flat, out)
+    return out
+
+
 def normalised(repo: Repo, spec: str) -> FuncInfo:
     raw = repo.func(spec)
     key = (id(repo), raw.qn, id(raw.node))
@@ -454,8 +1161,17 @@ def normalised(repo: Repo, spec: str) -> FuncInfo:
     fn = copy.deepcopy(flat.node)
     changed = False
     try:
-        for _ in range(3):
-            step = _expand_in(repo, flat, fn, (raw.qn,))
+        mods = _home_modules(repo, flat)
+        for _ in range(4):
+            step = _search_loops(fn)
+            step = _for_else(fn) or step
+            step = _record_make(repo, fn) or step
+            step = _inline_expression_helpers(repo, flat, fn, mods) or step
+            step = _apply_getters(repo, flat, fn, mods) or step
+            step = _spread_stars(fn) or step
+            step = _comps_over_literals(fn) or step
+            step = _consumed_generators(repo, flat, fn, (raw.qn,)) or step
+            step = _expand_in(repo, flat, fn, (raw.qn,)) or step
             step = _unroll(repo, flat, fn) or step
             ast.fix_missing_locations(fn)
             step = _attr_calls(repo, flat, fn) or step
@@ -467,10 +1183,7 @@ def normalised(repo: Repo, spec: str) -> FuncInfo:
     if not changed:
         _cache[key] = flat
         return flat
-    ast.fix_missing_locations(fn)
-    out = FuncInfo(flat.mod, flat.cls, fn, static=flat.static)
-    out.qn = flat.qn
+    out = _derived(flat, fn)
     out.flat_of = getattr(flat, "flat_of", raw)
-    out.inlined = list(getattr(flat, "inlined", []))
     _cache[key] = out
     return out
